@@ -81,6 +81,8 @@ fn main() {
         rep.max_samples = 0;
     }
     let t0 = Instant::now();
+    let stuck_limit = std::env::var("VERIF_STUCK_LIMIT_S").ok().and_then(|v| v.parse().ok()).unwrap_or(60u64);
+    seqio_verif::seqmon::start_stuck_monitor(ctx.replay_json(0), prop.clone(), stuck_limit);
     match prop.as_str() {
         "C01" => m_basic::c01(&ctx, &mut rep),
         "C02" => m_basic::c02(&ctx, &mut rep),
